@@ -101,7 +101,7 @@ def units(tier):
             for s in [None] + list(range(n)):
                 us.append(("link[%d,%s,%s]" % (n, "".join(k[0] for k in kinds), s), "unit_link_files", dict(nfiles=n, kinds=kinds, settle_in=s)))
     for s in (False, True):
-        for k in ("ready", "lazy"):
+        for k in ("ready", "lazy", "raise"):
             us.append(("compile_include[%s,%s]" % (s, k), "unit_include_c", dict(settles=s, kind=k)))
     for cmd, (lo, hi) in meta_c.ZERO_SIZE.items():
         for n in range(lo, hi + 1):
